@@ -47,6 +47,7 @@ type Cfg struct {
 	CompatNames            bool // with NameStress: also names that need the compatible_names option (NewX, XArgs, XResult)
 	WideStructs            bool // some structs have 9-36 fields (more than one bookkeeping word of required-field bits)
 	ArgDefaults            bool // function arguments may carry default values (the grammar allows it)
+	StructElems            bool // a third of the containers hold struct-likes
 	ArgRequired            bool // some function arguments are written `required`
 	FuncNamePool           bool // method names from a small pool: the same name in several services, names that contain each other
 	EnumAsInt              bool // i32 / i64 values may be written as enum members (the member's number)
@@ -72,7 +73,7 @@ func GoSafe() Cfg {
 func Full() Cfg {
 	return Cfg{MaxFiles: 4, MaxDefs: 4, Annotations: true, NastyLits: true, CppStuff: true, Consts: true, Defaults: true,
 		Services: true, NegIDs: true, ExpDoubles: true, HexIDs: true, IntSpell: true, SameBase: true, EnumViaTypedef: true,
-		EnumViaTypedefFar: true, WideStructs: true, ArgDefaults: true, EmptyEnums: true, Comments: true, SelfRef: true, MapStructKey: true, RawCtl: true, UnionDefaults: true, AliasNS: true, EnumAsInt: true, ArgRequired: true}
+		EnumViaTypedefFar: true, WideStructs: true, ArgDefaults: true, EmptyEnums: true, Comments: true, SelfRef: true, MapStructKey: true, RawCtl: true, UnionDefaults: true, AliasNS: true, EnumAsInt: true, ArgRequired: true, StructElems: true}
 }
 
 type gen struct {
@@ -589,6 +590,13 @@ func (g *gen) genType1(depth int, asKey bool) *Type {
 			t.Key = g.genType(depth-1, true)
 		}
 		t.Elem = g.genType(depth-1, false)
+		if g.cfg.StructElems && g.p(1, 3, "structelem") {
+			// containers of struct-likes (by value or pointer, with their constructors and defaults) are
+			// where generated code differs most between the list, set and map paths
+			if cands := g.visible(func(d *Def) bool { return d.Kind.IsStructLike() }); len(cands) > 0 {
+				t.Elem = &Type{Ref: rapid.SampledFrom(cands).Draw(g.t, "structelem_type"), Annos: t.Elem.Annos}
+			}
+		}
 		if g.cfg.CppStuff && g.p(1, 5, "cpptype") {
 			t.HasCpp = true
 			t.CppType = rapid.SampledFrom([]string{"std::vector", "foo", ""}).Draw(g.t, "cpptypev")
